@@ -341,10 +341,15 @@ def conforming_flow(ctx, rep):
         policy = rng.choice([("noentry",), ("bogus", rhex(rng, 64), rhex(rng, 32)), ("api", 3004)])
         srv = CS.RefCloudServer(ctx.model, rng, acct, pw, login_id=rstr(rng, ALNUM, 4, 24), session_id=rstr(rng, ALNUM, 4, 24),
                                 registry=registry, policy=policy, faults=faults)
-        Cm = CS.cloud_mod(rhex(rng, 8), lambda srv=srv: len(srv.log))
+        # the clock: either a function of the attempts made so far, or a clock on which EVERY reading is a second later than the
+        # one before (time passes between building, signing and posting a request)
+        ticking = i % 2 == 1
+        ticks = itertools.count()
+        Cm = CS.cloud_mod(rhex(rng, 8), (lambda ticks=ticks: next(ticks)) if ticking else (lambda srv=srv: len(srv.log)))
         cloud = Cm.NetHomePlusCloud(region, get_async_client=srv.factory, **kw)
-        rep.case(("conf", acct, pw, tuple(faults), name, policy[0]), f"conforming-{policy[0]}")
-        inp = {"region": region, "account": acct, "password": pw, "faults": faults, "udpid": u, "list": name, "policy": policy}
+        rep.case(("conf", acct, pw, tuple(faults), name, policy[0], ticking), f"conforming-{policy[0]}" + ("-ticking-clock" if ticking else ""))
+        inp = {"region": region, "account": acct, "password": pw, "faults": faults, "udpid": u, "list": name, "policy": policy,
+               "clock": "every reading one second later than the previous" if ticking else "constant between attempts"}
         res, exc = None, None
 
         async def go():
